@@ -1127,7 +1127,7 @@ func mainC17(e *env) {
 			violations++
 			c := hf.Case.clone()
 			c.History = &histM{Base: x.e.seed, From: f.ProcFrom, To: f.I + 1, Deep: f.Deep, Note: "this failure reproduces only after the earlier runs of its worker process; the replay command re-executes that range"}
-			p := x.writeReplay(c, hf, fmt.Sprintf("C17-%s-%d.json", hf.Verdict, f.Seed))
+			p := x.writeReplay(c, hf, fmt.Sprintf("C17-%s-%d-%s.json", hf.Verdict, f.Seed, shortTree()))
 			fmt.Printf("violation (not minimised: reproduces only with its worker process's history, runs %d..%d of batch seed %d):\n%s", f.ProcFrom, f.I, x.e.seed, describe(hf))
 			fmt.Printf("VIOLATION property=C17 replay=%s\n", p)
 			vioSamples = append(vioSamples, map[string]any{"class": hf.Verdict, "seed": f.Seed, "replay": p})
@@ -1156,7 +1156,7 @@ func mainC17(e *env) {
 		}
 		reported[sig] = true
 		violations++
-		p := x.writeReplay(min, mf, fmt.Sprintf("C17-%s-%d.json", mf.Verdict, f.Seed))
+		p := x.writeReplay(min, mf, fmt.Sprintf("C17-%s-%d-%s.json", mf.Verdict, f.Seed, shortTree()))
 		nt, no := len(min.Tasks), 0
 		for _, t := range min.Tasks {
 			no += len(t.Ops)
